@@ -336,7 +336,7 @@ def _triage_exception(e):
     here = os.path.dirname(os.path.abspath(__file__))
     if os.path.abspath(fn).startswith(here) or "/z3/" in fn:
         line = linecache.getline(fn, last.tb_lineno).strip()
-        if not line.startswith("raise "):
+        if not line.startswith("raise ") and "# passthrough" not in line:
             raise EngineError("engine crashed: %s: %s at %s:%d (%s)" % (type(e).__name__, e, fn, last.tb_lineno, line))
 
 
@@ -359,12 +359,42 @@ def in_set_expr(c, s):
     return z3.Or(*[(c == a) if a == b else z3.And(z3.UGE(c, a), z3.ULE(c, b)) for a, b in ranges])
 
 
+# Side table: z3 ast id of a character term -> (term, frozenset of the only code points it can take).  Filled by table
+# look-ups (the result of NUM_ALPHA[i] is one of the table's entries); lets class tests be decided without the solver.
+CHAR_SET = {}
+
+
+def register_char_set(c, values):
+    if not isinstance(c, int) and not isinstance(c, Atom):
+        CHAR_SET[c.get_id()] = (c, frozenset(values))
+    return c
+
+
+def char_in_expr(c, s):
+    """z3 Bool for 'c in s' using the value-set table when it decides the question"""
+    if isinstance(c, int):
+        return z3.BoolVal(c in s)
+    cs = CHAR_SET.get(c.get_id())
+    if cs is not None:
+        if cs[1] <= s:
+            return z3.BoolVal(True)
+        if not (cs[1] & s):
+            return z3.BoolVal(False)
+    return in_set_expr(c, s)
+
+
 def char_in(c, s):
     """python bool (forking): character c (int or BV8) is in code-point set s."""
     if isinstance(c, int):
         return c in s
     if isinstance(c, Atom):
         raise EngineError("character test on a rendered symbolic value")
+    cs = CHAR_SET.get(c.get_id())
+    if cs is not None:
+        if cs[1] <= s:
+            return True
+        if not (cs[1] & s):
+            return False
     return EX.branch(in_set_expr(c, s))
 
 
@@ -541,9 +571,7 @@ class SStr:
     def __getitem__(self, i):
         self._noatom("indexing")
         if isinstance(i, slice):
-            for b in (i.start, i.stop, i.step):
-                if isinstance(b, SInt):
-                    raise EngineError("symbolic slice bound")
+            i = concretize_slice(i)
             return SStr.mk(self.cs[i])
         if isinstance(i, SInt):
             i = i.concretize()
@@ -853,6 +881,13 @@ class SStr:
         raise EngineError("str.count on a symbolic string")
 
 
+def concretize_slice(sl):
+    """slice bounds that are symbolic integers are forked over their feasible values (small ranges only)"""
+    if isinstance(sl.start, SInt) or isinstance(sl.stop, SInt) or isinstance(sl.step, SInt):
+        return slice(*[b.concretize() if isinstance(b, SInt) else b for b in (sl.start, sl.stop, sl.step)])
+    return sl
+
+
 class SBytes(SStr):
     """Result of SStr.encode(): only ever consumed by hash stubs and decode()."""
     __slots__ = ()
@@ -995,7 +1030,7 @@ class SInt:
         if self.lo >= 0:
             q, r = z3.UDiv(x, c), z3.URem(x, c)
         else:
-            r = z3.SMod(x, c)          # sign follows the (positive) divisor: Python's %
+            r = x % c                  # bvsmod: sign follows the (positive) divisor, i.e. Python's %
             q = (x - r) / c            # exact signed division
         if want == "mod":
             lo, hi = (0, min(o - 1, self.hi)) if self.lo >= 0 else (0, o - 1)
